@@ -522,7 +522,8 @@ impl<'a> Gen<'a> {
     fn from_element(&mut self, depth: usize) -> (From_, Rel) {
         match self.rng.below(10) {
             0 if depth > 0 => {
-                let sq = self.simple_select(depth - 1, None);
+                // now and then a full select as the sub-query: its own ORDER BY / LIMIT / OFFSET, set operations, WITH
+                let sq = if self.rng.chance(1, 4) { self.select(depth - 1) } else { self.simple_select(depth - 1, None) };
                 let alias = self.fresh("s");
                 let cols = sq.out.iter().map(|c| (c.clone(), K::I)).collect();
                 (From_::Sub(Box::new(sq), alias.clone()), Rel { name: alias, cols, key: vec![] })
@@ -874,6 +875,17 @@ impl<'a> Gen<'a> {
                     // group keys were cut: keep it valid by dropping grouping
                     continue;
                 }
+                if !self.cfg.exec && (self.cfg.is(Dialect::Mysql) || self.cfg.is(Dialect::Postgres)) && u.groups.is_empty() && self.rng.chance(1, 8) {
+                    // an operand that is itself a compound (nested parentheses)
+                    let mut inner = self.simple_select(0, None);
+                    while inner.items.len() > u.items.len() {
+                        inner.items.pop();
+                        inner.out.pop();
+                    }
+                    if inner.items.len() == u.items.len() && inner.groups.is_empty() {
+                        u.unions.push((*self.rng.pick(&[SetOp::Union, SetOp::UnionAll, SetOp::Intersect, SetOp::Except]), inner));
+                    }
+                }
                 if !self.cfg.exec && (self.cfg.is(Dialect::Mysql) || self.cfg.is(Dialect::Postgres)) && !u.out.is_empty() && self.rng.chance(1, 4) {
                     // an operand with its own ORDER BY / LIMIT (parenthesised operands: not a SQLite feature)
                     let c: &'static str = crate::util::intern(&u.out[0]);
@@ -1050,11 +1062,14 @@ impl<'a> Gen<'a> {
         }
         Some(match self.rng.below(3) {
             0 => Returning::All,
-            1 => Returning::Cols(vec![rel.cols[0].0.clone()]),
+            1 => {
+                let n = 1 + self.rng.below(rel.cols.len().min(3));
+                Returning::Cols(rel.cols[..n].iter().map(|c| c.0.clone()).collect())
+            }
             _ => {
                 let unq = Rel { name: rel.name.clone(), cols: rel.cols.clone(), key: vec![] };
-                let e = self.scalar_unqualified(&unq, K::I);
-                Returning::Exprs(vec![e])
+                let n = 1 + self.rng.below(2);
+                Returning::Exprs((0..n).map(|_| self.scalar_unqualified(&unq, K::I)).collect())
             }
         })
     }
@@ -1276,7 +1291,14 @@ impl<'a> Gen<'a> {
             } else if can_limit && self.rng.chance(1, 3) {
                 if self.rng.coin() {
                     let c = t.cols[1].0.clone();
-                    s.orders.push(Ord_ { expr: X::Col(crate::util::intern(&c)), dir: if self.rng.coin() { Dir::Asc } else { Dir::Desc }, nulls_first: if self.rng.chance(1, 3) { Some(self.rng.coin()) } else { None } });
+                    let keyx = if self.rng.chance(1, 3) {
+                    // an expression key (the statement's own key column follows, so the order stays total)
+                    let v = self.int_val();
+                    X::Func("COALESCE", vec![X::Col(crate::util::intern(&c)), v])
+                } else {
+                    X::Col(crate::util::intern(&c))
+                };
+                s.orders.push(Ord_ { expr: keyx, dir: if self.rng.coin() { Dir::Asc } else { Dir::Desc }, nulls_first: if self.rng.chance(1, 3) { Some(self.rng.coin()) } else { None } });
                 }
                 s.orders.push(Ord_ { expr: X::Col(crate::util::intern(&t.key[0])), dir: Dir::Asc, nulls_first: None });
                 s.limit = Some(1 + self.rng.below(4) as u64);
@@ -1325,7 +1347,14 @@ impl<'a> Gen<'a> {
         } else if can_limit && self.rng.chance(1, 3) {
             if self.rng.coin() {
                 let c = t.cols[1].0.clone();
-                s.orders.push(Ord_ { expr: X::Col(crate::util::intern(&c)), dir: if self.rng.coin() { Dir::Asc } else { Dir::Desc }, nulls_first: if self.rng.chance(1, 3) { Some(self.rng.coin()) } else { None } });
+                let keyx = if self.rng.chance(1, 3) {
+                    // an expression key (the statement's own key column follows, so the order stays total)
+                    let v = self.int_val();
+                    X::Func("COALESCE", vec![X::Col(crate::util::intern(&c)), v])
+                } else {
+                    X::Col(crate::util::intern(&c))
+                };
+                s.orders.push(Ord_ { expr: keyx, dir: if self.rng.coin() { Dir::Asc } else { Dir::Desc }, nulls_first: if self.rng.chance(1, 3) { Some(self.rng.coin()) } else { None } });
             }
             s.orders.push(Ord_ { expr: X::Col(crate::util::intern(&t.key[0])), dir: Dir::Asc, nulls_first: None });
             s.limit = Some(1 + self.rng.below(4) as u64);
